@@ -42,6 +42,7 @@ type HarnessSpec struct {
 	Native    bool   `json:"native"` // witnesses replay natively (default true unless threads)
 	NoNative  bool   `json:"no_native"`
 	TimeND    bool   `json:"time_nondet"`
+	RandND    bool   `json:"rand_nondet"`
 	Witness   bool   `json:"witness"` // reachability twin: must be VIOLATED
 }
 
